@@ -77,6 +77,7 @@ func (x *clExec) close() {
 // newCLExec opens a fresh log in dir and checks the initial state.
 func newCLExec(c clCase, o *vfutil.Obs, dir string) (*clExec, *vfutil.Failure) {
 	x := &clExec{c: c, o: o, dir: dir, b: newCLBuilder(), maxSeg: c.MaxSeg, workers: c.Workers, lastCleanHW: -2}
+	x.b.skew = c.Flavor == "C09"
 	x.m = newCLModel(c.MaxSeg)
 	x.maxEpoch = 1
 	if f := x.open(); f != nil {
